@@ -450,8 +450,20 @@ class C02Once(Base):
 class C10Messages(Base):
     NAME = 'c10'
     PID = 'C10'
+    KPOLL = 6      # iterations for the confirmation poll to be started
+
+    def __init__(self, case, phase):
+        super().__init__(case, phase)
+        self.need_poll: Dict[str, int] = {}
 
     def on_event(self, ev):
+        if ev['k'] == 'POLL_CMD':
+            for j in ev['jobs']:
+                self.need_poll.pop(j.rsplit('/', 1)[0], None)
+            return
+        if ev['k'] == 'POOL_REMOVE':
+            self.need_poll.pop(ev['task']['id'], None)
+            return
         if ev['k'] != 'MSG_OUT' or ev.get('forced') or ev.get('transient'):
             return
         if ev['flag'] != '(received)' or ev['depth'] != 0:
@@ -489,6 +501,24 @@ class C10Messages(Base):
                 self.v('backward-message-no-poll',
                        f'{tid}: {ev["message"]!r} received in status {sb} '
                        'did not request a poll', ev)
+            else:
+                # ... and the poll must really be issued
+                self.need_poll.setdefault(tid, self.drv.bus.it)
+                self.n['polls_expected'] += 1
+
+    def after_iter(self, drv, pool_snap):
+        schd = drv.schd
+        if schd.stop_mode:
+            self.need_poll.clear()
+            return
+        for tid, it in list(self.need_poll.items()):
+            if drv.bus.it - it >= self.KPOLL:
+                del self.need_poll[tid]
+                self.v('backward-message-poll-not-issued',
+                       f'{tid}: a received message that would have moved '
+                       f'its status backwards (iteration {it}) asked for a '
+                       f'confirmation poll, but no poll of its job was '
+                       f'started in {self.KPOLL} iterations', {'id': tid})
 
     def on_phase_end(self, drv):
         """At quiescence, final status/outputs match the latest job."""
